@@ -230,8 +230,8 @@ fn overlap_stats(spans: &[(u64, u64, u32)]) -> (u64, u64) {
 pub fn run(ctx: &Ctx) -> Report {
     let mut l = Local::default();
     let per_run: u64 = ((match ctx.tier {
-        Tier::Quick => 700.0,
-        Tier::Thorough => 10_000.0,
+        Tier::Quick => 1_500.0,
+        Tier::Thorough => 40_000.0,
     }) * ctx.scale) as u64;
     let epoch = Instant::now();
     let mut all_salts: Vec<String> = vec![];
